@@ -1,17 +1,113 @@
 import JominiModel.Model.BinDe
 import JominiModel.Spec.BinDoc
+import JominiModel.Proofs.BinDe
+import JominiModel.Proofs.BinDeSeq
 /-
 C04 — binary deserialization agrees across tape, on-demand and streaming paths.
-(theorems are added below; helper lemmas live in Proofs/BinDe*.lean)
+Helper lemmas: Proofs/BinDe.lean (dispatch), Proofs/BinDeSeq.lean (sequential readers).
 -/
 namespace Jomini.Props.C04
 open Jomini Jomini.BinDe
+
+/-- Per token kind × leaf-like request type (typed scalars, `any`, unit enums) the three path
+models produce the same Val, and it is the reference value: integers and booleans verbatim,
+floats through the flavor, strings through the encoding, token ids through the resolver or the
+configured fallback (`valLeaf` = `leafPrim` then what the type accepts).  The sequential paths
+leave the rest of the input untouched. -/
+theorem C04_token_dispatch (c : Cfg) (f : Nat) (ty : Ty) (h : LeafTy ty) (l : BLeaf)
+    (rest : List Tok) (tape : List TTok) (idx : Nat) (ht : tape[idx]? = some l.ttok) :
+    deTok .ondemand c (f + 1) ty l.tok rest = (valLeaf c ty l).map (fun v => (v, rest)) ∧
+    deTok .stream c (f + 1) ty l.tok rest = (valLeaf c ty l).map (fun v => (v, rest)) ∧
+    tVal c tape (f + 1) ty idx = valLeaf c ty l ∧
+    valNode c (.leaf l) ty = valLeaf c ty l :=
+  ⟨seq_leaf .ondemand c f ty h l rest, seq_leaf .stream c f ty h l rest, tape_leaf c tape f ty h l idx ht,
+   spec_leaf c ty h l⟩
+
+example : LeafTy .f64 ∧ ([TTok.token 8192, TTok.f32 [220, 5, 0, 0]] : List TTok)[1]? = some (BLeaf.f32 [220, 5, 0, 0]).ttok := by
+  simp [LeafTy, BLeaf.ttok]
+
+/-- rgb as its components: a sequence request on an rgb value is `ColorSequence` on all three paths
+and in the reference — the streaming reader hands over the parsed block, the on-demand path reads
+the block after the marker itself, the tape holds one `Rgb` token. -/
+theorem C04_rgb_dispatch (c : Cfg) (f : Nat) (et : Ty) (col : Rgb) (rest : List Tok)
+    (tape : List TTok) (idx : Nat) (ht : tape[idx]? = some (.rgb col)) :
+    fetch .stream (.id RGB_ID :: (rgbBody col ++ rest)) = .tok (.rgb col) rest ∧
+    deTok .stream c (f + 1) (.seq et) (.rgb col) rest = (colorVisit (.seq et) col).map (fun v => (v, rest)) ∧
+    deTok .ondemand c (f + 1) (.seq et) (.id RGB_ID) (rgbBody col ++ rest) =
+      (colorVisit (.seq et) col).map (fun v => (v, rest)) ∧
+    tVal c tape (f + 1) (.seq et) idx = colorVisit (.seq et) col ∧
+    valNode c (.rgb col) (.seq et) = colorVisit (.seq et) col :=
+  ⟨stream_fetch_rgb col rest, stream_rgb_seq c f et col rest, ondemand_rgb_seq c f et col rest,
+   tape_rgb_seq c tape f et col idx ht, spec_rgb_seq c et col⟩
+
+/-- … and a full capture of a colour is the name `rgb` followed by the list of its components. -/
+theorem C04_rgb_components (col : Rgb) :
+    colorVisit (.seq .any) col = seqFrom .any [outerElem1, outerElem2 col] [] ∧
+    outerElem1 .any = .ok (renderPrim (.str [114, 103, 98])) ∧
+    outerElem2 col .any = .ok ("[" ++ joinComma (col.comps.map (fun v => "u" ++ toString v)) ++ "]") :=
+  colorVisit_seq_any col
 
 /-- the root deserializers only serve key/value requests: any other root request is the
 "can only work with key value pairs" error on all three paths and in the reference. -/
 theorem C04_root_only_maps (c : Cfg) (toks : List Tok) (tape : List TTok) (d : BDoc) :
     deOndemand c (.plain .bool) toks = .error .other ∧ deStream c (.plain .bool) toks = .error .other ∧
     deTape c (.plain .bool) tape = .error .other ∧ valueOfBin c (.plain .bool) d = .error .other := by
-  simp [deOndemand, deStream, deSeqRoot, deTape, valueOfBin]
+  simp [deOndemand, deStream, deSeqRoot, deTape, valueOfBin, valueOfG]
+
+/-
+FULL STATEMENT (not proved as a whole):
+  C04_ondemand_eq_stream : WellFormed d → Fits ty d →
+      deOndemand c ty (tokensOf d) = deStream c ty (tokensOf d)
+What is proved (`…_partial`): on every lexeme stream WITHOUT truncation markers and WITHOUT the rgb
+marker (`Plain`), for every type and fuel, one step of the token deserializer and of the sequence
+loop of the on-demand model either leaves the token-level model (`beyond`: an `Open` in key
+position followed by a payload-carrying lexeme, where the Rust drops only the lexeme id) or equals
+the streaming model, given the same for the previous fuel; together with the equality of every
+reader primitive (`fetch`, `read`, `next_value`, `deserialize_ignored_any`) and `Rel` for
+`next_key`.  Missing: the same step for the map / struct loops (same shape, not finished), the
+induction over fuel assembling the steps, rgb blocks (they need "requested as a sequence or
+ignored", `C04_rgb_dispatch` is the local fact), and the absence of `beyond` on well-formed
+documents (ghost objects are `{}`: the dropped lexeme is `Close`).
+-/
+theorem C04_ondemand_eq_stream_partial (c : Cfg) (f : Nat)
+    (ihE : ∀ et toks acc, Plain toks → Rel (deElems .ondemand c f et toks acc) (deElems .stream c f et toks acc) ∧ SubOut (deElems .stream c f et toks acc) toks)
+    (ihM : ∀ vt root toks acc, Plain toks → Rel (deMap .ondemand c f vt root toks acc) (deMap .stream c f vt root toks acc) ∧ SubOut (deMap .stream c f vt root toks acc) toks)
+    (ihS : ∀ fs bt root toks slots, Plain toks → Rel (deStruct .ondemand c f fs bt root toks slots) (deStruct .stream c f fs bt root toks slots) ∧ SubOut (deStruct .stream c f fs bt root toks slots) toks)
+    (ihT : ∀ ty t rest, plainTok t = true → Plain rest → Rel (deTok .ondemand c f ty t rest) (deTok .stream c f ty t rest) ∧ SubOut (deTok .stream c f ty t rest) rest) :
+    (∀ ty t rest, plainTok t = true → Plain rest →
+      Rel (deTok .ondemand c (f + 1) ty t rest) (deTok .stream c (f + 1) ty t rest) ∧
+      SubOut (deTok .stream c (f + 1) ty t rest) rest) ∧
+    (∀ et toks acc, Plain toks →
+      Rel (deElems .ondemand c (f + 1) et toks acc) (deElems .stream c (f + 1) et toks acc) ∧
+      SubOut (deElems .stream c (f + 1) et toks acc) toks) :=
+  ⟨deTok_step c f ihE ihM ihS ihT, deElems_step c f ihE ihT⟩
+
+/-- the induction hypotheses of the step are satisfiable: they hold at fuel 0. -/
+example (c : Cfg) : ∀ ty t rest, plainTok t = true → Plain rest →
+    Rel (deTok .ondemand c 0 ty t rest) (deTok .stream c 0 ty t rest) ∧ SubOut (deTok .stream c 0 ty t rest) rest := by
+  intro ty t rest _ _; simp [deTok, Rel, SubOut]
+
+/-- reader primitives: on `Plain` streams the on-demand lexer and the streaming reader deliver the
+same tokens, read the same value token, skip the same input; `next_key` agrees unless the
+on-demand path leaves the token-level model. -/
+theorem C04_readers_agree (toks : List Tok) (h : Plain toks) (root : Bool) (f : Nat) :
+    fetch .ondemand toks = fetch .stream toks ∧
+    fetchRead .ondemand toks = fetchRead .stream toks ∧
+    nextValue .ondemand toks = nextValue .stream toks ∧
+    Rel (nextKey .ondemand root f toks) (nextKey .stream root f toks) ∧
+    (∀ t rest, plainTok t = true → skipTok .ondemand t rest = skipTok .stream t rest) :=
+  ⟨fetch_plain toks h, fetchRead_plain toks h, nextValue_plain toks h, nextKey_rel root f toks h,
+   fun t rest ht => skipTok_plain t rest ht⟩
+
+example : Plain [.id 8192, .equal, .open, .i32 1, .i32 2, .close, .open, .close, .id 8199, .equal, .quoted [97]] := by
+  intro t ht; simp at ht; rcases ht with rfl | rfl | rfl | rfl | rfl | rfl | rfl | rfl | rfl | rfl | rfl <;> simp [plainTok, RGB_ID]
+
+/-
+NOT PROVED (covered by the correspondence check and the implementation oracle only):
+  C04_tape_eq_ondemand : WellFormed d → Fits ty d → tapeOf d = some tp → deTape c ty tp = deOndemand c ty (tokensOf d)
+  C04_eq_spec          : WellFormed d → Fits ty d → deStream c ty (tokensOf d) = valueOfBin c ty d
+(`bde_spec` compares all three real paths with the Rust twin of `valueOfBin`; `bde_toks` / `bde_tapeof`
+tie `tokensOf` / `tapeOf` to the real Lexer / BinaryTape.)
+-/
 
 end Jomini.Props.C04
